@@ -70,13 +70,10 @@ class BaseRandomLineAccessFile(collections.abc.Sequence, Generic[C], ABC):
         if self.closed:
             raise RuntimeError("Firstly open the file.")
 
-        if self._dirty:
-            for n in range(len(self)):
-                yield self._get_item(n)
-        else:
-            self._file_seek(0)
-            for n in range(len(self)):
-                yield self._read_next_line()
+        # every line is located through the index: reading on from offset 0 would ignore a caller-supplied
+        # index and would share the file position with random accesses interleaved with the iteration
+        for n in range(len(self)):
+            yield self._get_item(n)
 
     @abstractmethod
     def _file_seek(self, offset: int):
@@ -236,7 +233,8 @@ class RandomLineAccessFile(BaseRandomLineAccessFile[str]):
         """
 
         if self.file is None:
-            self.file = open(self.path_to, "r")
+            # lines are delimited by "\n" only (as in the offsets index and in the memory mapped variant)
+            self.file = open(self.path_to, "r", newline="\n")
             self._opened_in_process_with_id = os.getpid()
 
         return self
